@@ -205,7 +205,11 @@ namespace pika::detail {
 
         // Callback has either already executed or is executing concurrently
         // on another thread.
-        if (signalling_thread_ == pika::threads::detail::get_self_id())
+        auto const self_id = pika::threads::detail::get_self_id();
+        bool const on_signalling_thread = signalling_thread_ == self_id &&
+            (self_id != pika::threads::detail::invalid_thread_id ||
+                signalling_os_thread_ == std::this_thread::get_id());
+        if (on_signalling_thread)
         {
             // Callback executed on this thread or is still currently executing
             // and is unregistering itself from within the callback.
@@ -255,6 +259,7 @@ namespace pika::detail {
         PIKA_ASSERT(stop_requested(state_.load(std::memory_order_acquire)));
 
         signalling_thread_ = pika::threads::detail::get_self_id();
+        signalling_os_thread_ = std::this_thread::get_id();
 
         // invoke registered callbacks
         while (callbacks_ != nullptr)
